@@ -204,9 +204,15 @@ class Store:
             for s in (name, str(x.ident)):
                 if any(c in s for c in "|;,\t\n"):
                     self.problems.append(f"name {s!r} not encodable")
+            try:
+                fname = str(x.filename)      # what `warn_prefix` prints for text that belongs to the entity
+            except Exception:  # noqa  (external entities have no source file)
+                fname = ""
+            if any(c in fname for c in "|\t\n"):
+                self.problems.append(f"file name {fname!r} not encodable")
             out.append("|".join(["E", name, str(self.ids[id(p)]) if isinstance(p, sf.FortranBase) else "",
                                  "1" if ext else "0", (x.external_url or "") if ext else "",
-                                 ";".join(chain), ";".join(attrs)]))
+                                 ";".join(chain), ";".join(attrs), fname]))
         for a in self.proj_lists:
             out.append("|".join(["L", a, self.items(list(getattr(self.project, a)))]))
         return out
@@ -276,6 +282,33 @@ def html_segments(html):
 
 def squash(s):
     return re.sub(r"\s+", "", s)
+
+
+def printed_warnings(printed):
+    """the messages FORD printed through `ford.console.warn`, in order, without white space (rich wraps
+    lines at the console width): everything between one `Warning:` and the next"""
+    return [squash(x) for x in printed.split("Warning:")[1:]]
+
+
+def split_model_warnings(ans):
+    """model answer `...|#W|msg|msg` -> (answer, [squashed messages])"""
+    body, _, w = ans.rpartition("|#W")
+    return body, [squash(x) for x in w.split("|")[1:]]
+
+
+def compare_warnings(rep, stats, model_w, printed, case, what):
+    """exact correspondence of the warnings: the model's `convertLinkW` / `convertTextW` vs what FORD printed"""
+    impl_w = printed_warnings(printed)
+    kind = "none" if not impl_w else "+".join("child-not-found" if "linkingtopagefor" in x else "not-found" if x.endswith("notfound") else "other" for x in impl_w[:3]) + ("+..." if len(impl_w) > 3 else "")
+    stats["warnings"][kind] = stats["warnings"].get(kind, 0) + 1
+    if impl_w != model_w:
+        stats["disagree"] += 1
+        rep.tie_broken(f"correspondence conv (warnings): model {model_w!r} vs printed {impl_w!r} for {what}",
+                       dict(case, model_warnings=model_w, printed=printed))
+        return False
+    if impl_w:
+        stats["distinct"].add(common.digest(["warn", case.get("context"), kind]))
+    return True
 
 
 def warned_about(log, name):
@@ -572,6 +605,67 @@ def render_text(parts):
 
 A_PAT = r'<a(?: href="([^"]*)")?>([^<]*)</a>'
 
+CODE_RE = re.compile(r"<code>(.*?)</code>", re.S)
+CODE_FORMS = ["{r}", "call {r}(x)", "x = {r}", "{r}:{r}", "use {r}, only: y", "[[ {r}"]
+
+
+def gen_code_text(rng, refs):
+    """a one-paragraph text with 1-2 code spans (single or double backticks) between / next to running text that has
+    references of its own: -> [("plain", text) | ("code", content, ticks)]; the span contents hold references in
+    documented spellings (to existing, hidden and absent things alike).  The joiners between running text and spans never
+    put `(` behind a `]` (that would be Markdown's own `[text](url)` syntax swallowing the span), and the words that are
+    not references hold at most one underscore at a word boundary (two would be Markdown's `_emphasis_`)"""
+    for _ in range(20):
+        pieces, loose = _gen_code_text(rng, refs)
+        if len(re.findall(r"(?<![^\W_])_|_(?![^\W_])", " ".join(loose))) < 2:
+            break
+    return pieces
+
+
+def _gen_code_text(rng, refs):
+    pieces, loose = [], []     # loose: the words / look-alikes of the running text that are not references
+
+    def running():
+        parts = gen_text(rng, refs)
+        loose.extend(p[1] for p in parts if p[0] != "ref")
+        return render_text(parts)
+
+    n_code = rng.choice([1, 1, 2])
+    if rng.random() < 0.8:
+        pieces.append(("plain", running() + rng.choice([" ", " in ", ", e.g. ", " - "])))
+    for i in range(n_code):
+        if i:
+            pieces.append(("plain", rng.choice([" and ", ", ", " / ", None]) or (" or " + running() + " vs. ")))
+        r = G.render_ref(rng.choice(refs)[0])
+        pieces.append(("code", rng.choice(CODE_FORMS).replace("{r}", r), rng.choice(["`", "`", "``"])))
+    if rng.random() < 0.7:
+        pieces.append(("plain", rng.choice([" ", " - ", ": ", ", see "]) + running()))
+    if pieces[0][0] == "plain":
+        pieces[0] = ("plain", pieces[0][1].lstrip())
+    return [x for x in pieces if x[0] == "code" or x[1]], loose
+
+
+def render_pieces(pieces):
+    return "".join(x[1] if x[0] == "plain" else x[2] + x[1] + x[2] for x in pieces)
+
+
+def html_pieces(html):
+    """the converted paragraph cut at its <code> elements: [('C', content as displayed) | ('K', inner html: something
+    inside the span was converted) | ('P', ..) | ('L', ..) | ('T', ..)], or None for an unexpected shape"""
+    if not (html.startswith("<p>") and html.endswith("</p>")):
+        return None
+    body, out, pos = html[3:-4], [], 0
+    for m in list(CODE_RE.finditer(body)) + [None]:
+        part = body[pos:m.start()] if m is not None else body[pos:]
+        segs = html_segments(f"<p>{part}</p>")
+        if segs is None:
+            return None
+        out += segs
+        if m is not None:
+            out.append(("K", m.group(1)) if "<" in m.group(1) else ("C", htmllib.unescape(m.group(1))))
+            pos = m.end()
+    return out
+
 
 def check_text_oracle(P, out, ctx_abs, loc, parts, html, exc, log):
     """The property on a whole text: every documented reference becomes what the documented lookup gives
@@ -735,6 +829,16 @@ def conv_stream(ford, drv, rng, n_projects, rep, tables, stats, replay_case=None
                         tqueries.append((what, None, free["projfile"], "", parts))
                     else:
                         tqueries.append((what, None, free["page"](c), c, parts))
+            # ---- texts with code spans (round 6): the model gets the text cut at its spans
+            cctx = tctx[:2] + [("projfile", None)]
+            cqueries = []    # (what, context, path, location, pieces)
+            for what, c in cctx:
+                for _ in range(4):
+                    pieces = gen_code_text(prng, refs)
+                    if what == "entity":
+                        cqueries.append((what, c, None, None, pieces))
+                    else:
+                        cqueries.append((what, None, free["projfile"], "", pieces))
             reqs = ["c11.conv", base, cwd] + fields
             for what, c, path, _, r, _ in queries:
                 reqs.append("|".join(["Q", str(store.idof(real[c["id"]])) if c is not None else "",
@@ -742,15 +846,54 @@ def conv_stream(ford, drv, rng, n_projects, rep, tables, stats, replay_case=None
             for what, c, path, _, parts in tqueries:
                 reqs.append("|".join(["T", str(store.idof(real[c["id"]])) if c is not None else "",
                                       str(path) if path is not None else "-", render_text(parts)]))
+            for what, c, path, _, pieces in cqueries:
+                reqs.append("|".join(["C", str(store.idof(real[c["id"]])) if c is not None else "",
+                                      str(path) if path is not None else "-"] +
+                                     [("c" if x[0] == "code" else "p") + x[1] for x in pieces]))
             mo = drv.batch([reqs])[0]
-            if mo[0] != "ok" or len(mo) != len(queries) + len(tqueries) + 1:
+            if mo[0] != "ok" or len(mo) != len(queries) + len(tqueries) + len(cqueries) + 1:
                 rep.tie_broken(f"conv: driver answered {mo[:2]} for project {k}")
                 continue
-            for (what, c, path, loc, parts), ans in zip(tqueries, mo[1 + len(queries):]):
+            for (what, c, path, loc, pieces), ans in zip(cqueries, mo[1 + len(queries) + len(tqueries):]):
+                text = render_pieces(pieces)
+                html, exc, printed = impl_convert_raw(md, text, real[c["id"]] if c is not None else None, path)
+                n_eval += 1
+                ans, model_w = split_model_warnings(ans)
+                a = ans.split("|")
+                if a[0] == "X":
+                    model, im = ["X", a[1]], (["X", exc] if exc is not None else html_pieces(html))
+                else:
+                    model = [[x[0], x[1:]] if x[0] in "PTCK" else ["L"] + x[1:].split(";", 1) for x in a[1:]]
+                    im = ["X", exc] if exc is not None else html_pieces(html)
+                    im = [list(x) for x in im] if im is not None and exc is None else im
+                ckind = (c["kind"] + ("(local type)" if in_local_type(c) else "")) if c is not None else what
+                shape = "code:" + "+".join(x[0] + (x[2] if x[0] == "code" else "") for x in pieces)
+                stats["code"][shape] = stats["code"].get(shape, 0) + 1
+                case = {"stream": "conv", "project": k, "files": files, "options": options, "context": ckind,
+                        "context_name": c["name"] if c is not None else None,
+                        "context_file": G.file_of(c)["name"] if c is not None else None,
+                        "path": str(path) if path is not None else None, "displayed_below_site_root": loc,
+                        "text": text, "pieces": [list(x) for x in pieces],
+                        "impl": html if exc is None else ["X", exc], "model": ans}
+                if im != model:
+                    stats["disagree"] += 1
+                    rep.tie_broken(f"correspondence conv (code spans): model {ans!r} vs implementation {(html if exc is None else exc)!r} for the text {text!r} in context {ckind}", case)
+                else:
+                    stats["distinct"].add(common.digest(["code", ckind, shape, [x[0] for x in model]]))
+                compare_warnings(rep, stats, model_w, printed, case, f"the text {text!r} in context {ckind}")
+                # oracle (from the statement): every span is displayed with its content exactly as written, in order
+                if exc is None:
+                    shown = [("K", x) if "<" in x else ("C", htmllib.unescape(x)) for x in CODE_RE.findall(html)]
+                    want = [("C", x[1]) for x in pieces if x[0] == "code"]
+                    if [tuple(x) for x in shown] != want:
+                        rep.failing_input(dict(case, stream="code", form="span-in-text",
+                                               why=f"references inside code spans were not left verbatim: displayed {shown!r}, written {want!r}"), None)
+            for (what, c, path, loc, parts), ans in zip(tqueries, mo[1 + len(queries):1 + len(queries) + len(tqueries)]):
                 text = render_text(parts)
                 html, exc, printed = impl_convert_raw(md, text, real[c["id"]] if c is not None else None, path)
                 n_eval += 1
                 im = ("X", exc) if exc is not None else html_segments(html)
+                ans, model_w = split_model_warnings(ans)
                 a = ans.split("|")
                 if a[0] == "X":
                     model = ("X", a[1])
@@ -773,6 +916,7 @@ def conv_stream(ford, drv, rng, n_projects, rep, tables, stats, replay_case=None
                 else:
                     stats["distinct"].add(common.digest([ckind, shape, [p[2] for p in parts if p[0] == "ref"],
                                                          [x[0] for x in model] if isinstance(model, list) else model]))
+                compare_warnings(rep, stats, model_w, printed, case, f"the text {text!r} in context {ckind}")
                 culprit = None
                 if exc is not None:
                     # an exception aborts the whole text: the first reference that raises on its own explains it
@@ -798,6 +942,7 @@ def conv_stream(ford, drv, rng, n_projects, rep, tables, stats, replay_case=None
                                   path, reset=(what != "summary"), log=log)
                 n_eval += 1
                 stats["name_shape"][name_shape(r[0])] = stats["name_shape"].get(name_shape(r[0]), 0) + 1
+                ans, model_w = split_model_warnings(ans)
                 a = ans.split("|")
                 model = tuple(a[:3]) if a[0] == "L" else tuple(a[:2])
                 ckind = (c["kind"] + ("(local type)" if in_local_type(c) else "")) if c is not None else what
@@ -819,6 +964,7 @@ def conv_stream(ford, drv, rng, n_projects, rep, tables, stats, replay_case=None
                     rep.tie_broken(f"correspondence conv: model {model} vs implementation {im} for {text} in context {ckind}", case)
                 else:
                     stats["distinct"].add(common.digest([ckind, form, tclass, im[0], r[1], r[3]]))
+                compare_warnings(rep, stats, model_w, log[0], case, f"{text} in context {ckind}")
                 verdict, why = check_oracle(P, out, c, loc, r, im, log[0])
                 stats["oracle"][verdict] = stats["oracle"].get(verdict, 0) + 1
                 if verdict == "fail":
@@ -832,7 +978,7 @@ def conv_stream(ford, drv, rng, n_projects, rep, tables, stats, replay_case=None
             for (r, _) in some:
                 text = G.render_ref(r)
                 cobj = real[chosen[0][1]["id"]] if chosen[0][0] == "entity" else None
-                for form, src in (("span", f"see `{text}` here"), ("fenced", f"para\n\n```\n{text}\n```\n"),
+                for form, src in (("span", f"see `{text}` here"), ("span2", f"``{text}`` is how to write it"), ("fenced", f"para\n\n```\n{text}\n```\n"),
                                   ("indented", f"para\n\n    {text}\n")):
                     try:
                         with common.quiet():
@@ -1144,7 +1290,7 @@ def run(tier: str, seed: int, replay: str | None = None) -> int:
     n_e2e = 6 if tier == "quick" else 40
     stats = {"project_url": {}, "ctx": {}, "target": {}, "form": {}, "outcome": {}, "kinds": {}, "oracle": {}, "fail_class": {},
              "code": {}, "e2e_pages": {}, "e2e_project_url": {}, "samples": [], "distinct": set(), "disagree": 0,
-             "syntax": {}, "name_shape": {}, "syntax_fail": {}}
+             "syntax": {}, "name_shape": {}, "syntax_fail": {}, "warnings": {}}
     n_path, bad_path = path_stream(drv, rng, 2000 if tier == "quick" else 20000, rep)
     n_conv = conv_stream(ford, drv, rng, n_proj, rep, tables, stats)
     n_syn = syntax_stream(ford, drv, random.Random(seed * 7919 + 3), 6000 if tier == "quick" else 60000, rep, stats)
@@ -1169,6 +1315,7 @@ def run(tier: str, seed: int, replay: str | None = None) -> int:
         oracle_verdicts=stats["oracle"],
         oracle_failures_by_class=stats["fail_class"],
         code_span_cases=stats["code"],
+        warnings_compared=dict(sorted(stats["warnings"].items())),
         e2e_links_checked=n_e,
         e2e_pages=stats["e2e_pages"],
         e2e_project_url_histogram=stats["e2e_project_url"],
@@ -1176,8 +1323,9 @@ def run(tier: str, seed: int, replay: str | None = None) -> int:
         visibility_model_mismatch=stats.get("visibility_model_mismatch", 0),
     )
     rep.assumptions += [
-        "Python-Markdown's inline-pattern machinery (priorities, code-span protection, escapes) is on the implementation side only; "
-        "LINK_RE and the apply-until-no-match loop are modelled (LinkSyntax.lean) and compared on every run",
+        "Python-Markdown's own patterns (where a code span begins and ends, escapes, block parsing) are on the implementation side only: "
+        "the model is handed a text cut at its code spans; the registry order (table), LINK_RE and the apply-until-no-match loop are "
+        "modelled (InlineOrder.lean, LinkSyntax.lean) and compared on every run",
         "characters above U+024F are not generated (the model's word-character class is exact below)",
         "the entity store handed to the model is abstracted from FORD's correlated objects (parsing/correlation are C01/C07)",
         "identifiers (`ident`, NameSelector) are inputs of the model (property C10)",
